@@ -494,7 +494,7 @@ func init() {
 		Explanation: "Decides the structural clause 'no unchecked dynamic-type assumption on client-derived values in parse/plan code, and the per-entry recover barriers exist': every non-comma-ok type assertion in the parse/plan region is dominated by a successful comma-ok test or has a construction-fixed dynamic type; (*table).insert and (*DB).mapPartitionRequest install recover() first and spawn nothing below; a rejected entry still advances the WAL offset.",
 		NotDecided:  []string{"panics from index/nil/arithmetic inside sqlparser, goexpr, bytemap on arbitrary bytes (no barrier at sql.Parse, and none is added)", "semantic validation of arities beyond what produces a dynamic-type assumption", "panics in goroutines without a barrier other than the two per-entry workers"},
 		Assumptions: []string{"the parse/plan region is closed under static calls and the listed plan-time interface methods"},
-		Rules:       []func(*Ctx){ruleC16a, ruleC16b, ruleC16c, func(c *Ctx) { ruleC16d(c, "C16.d") }, func(c *Ctx) { ruleC16e(c, "C16.e") }},
+		Rules:       []func(*Ctx){ruleC16a, ruleC16b, ruleC16c, func(c *Ctx) { ruleC16d(c, "C16.d") }, func(c *Ctx) { ruleC16e(c, "C16.e") }, func(c *Ctx) { ruleC16f(c, "C16.f") }, func(c *Ctx) { ruleC16g(c, "C16.g") }},
 	})
 }
 
@@ -913,4 +913,189 @@ func sameCellParam(addr ssa.Value, p *ssa.Parameter) bool {
 		return len(sts) == 1 && sts[0].Val == ssa.Value(p)
 	}
 	return rootv == ssa.Value(p)
+}
+
+// ruleC16f: slicing SQL text at searched positions cannot panic.
+func ruleC16f(c *Ctx, rule string) {
+	c.describe(rule, "dom: in package planner a string is sliced at a position obtained from a text search only when (1) a found-test on that position dominates the slice for searches that report -1, and (2) the sliced string is the very string that was searched (or its case-mapped source) — otherwise a test of the position against len(sliced string) must dominate the slice: the text may have been cut shorter in between")
+	n := 0
+	for _, fn := range c.P.ModFns {
+		if pkgOf(fn) != "z/planner" {
+			continue
+		}
+		for _, in := range instrs(fn) {
+			sl, ok := in.(*ssa.Slice)
+			if !ok || !isStringType(sl.X.Type()) {
+				continue
+			}
+			var srcs []*ssa.Call
+			for _, bnd := range []ssa.Value{sl.Low, sl.High} {
+				if bnd == nil {
+					continue
+				}
+				dependsOn(bnd, func(x ssa.Value) bool {
+					if call, ok := x.(*ssa.Call); ok && textSearchCalls[calleeName(call)] {
+						srcs = append(srcs, call)
+					}
+					return false
+				})
+			}
+			seen := map[*ssa.Call]bool{}
+			for _, s := range srcs {
+				if seen[s] {
+					continue
+				}
+				seen[s] = true
+				n++
+				c.touch(fn)
+				searched := s.Call.Args[0]
+				if strings.Contains(calleeName(s), "regexp") {
+					searched = s.Call.Args[1]
+				}
+				src := searched
+				if cl, isC := strip(searched).(*ssa.Call); isC && (isCall(cl, "strings.ToLower") || isCall(cl, "strings.ToUpper")) {
+					src = cl.Call.Args[0]
+				}
+				same := sameValue(sl.X, searched) || sameValue(sl.X, src)
+				// a position that was moved on from where the search found it (idx += …, idx+1) can
+				// lie beyond the end even of the searched string itself
+				for _, bnd := range []ssa.Value{sl.Low, sl.High} {
+					if bnd != nil && dependsOn(bnd, func(x ssa.Value) bool {
+						b, isB := x.(*ssa.BinOp)
+						return isB && (b.Op == token.ADD || b.Op == token.SUB || b.Op == token.MUL)
+					}) {
+						same = false
+					}
+				}
+				lenGuard, foundGuard := false, false
+				dependsOnSearch := func(v ssa.Value) bool {
+					return dependsOn(v, func(x ssa.Value) bool { return x == ssa.Value(s) })
+				}
+				for _, g := range guardsOf(sl.Block()) {
+					b, isB := g.v.(*ssa.BinOp)
+					if !isB {
+						continue
+					}
+					for _, pair := range [][2]ssa.Value{{b.X, b.Y}, {b.Y, b.X}} {
+						if !dependsOnSearch(pair[0]) {
+							continue
+						}
+						if cl, isC := pair[1].(*ssa.Call); isC && isCall(cl, "builtin len") && sameValue(cl.Call.Args[0], sl.X) {
+							lenGuard = true
+						}
+						if k, isK := constInt(pair[1]); isK && (k == 0 || k == -1) {
+							foundGuard = true
+						}
+					}
+				}
+				reportsMinus1 := strings.HasPrefix(calleeName(s), "strings.")
+				okFound := !reportsMinus1 || foundGuard
+				okLen := same || lenGuard
+				inst := stableName(fn) + ": slice at " + calleeName(s) + " #" + itoa(perTopCount(c, rule, topOf(fn))) + " stays in bounds"
+				why := ""
+				if !okFound {
+					why = "no found-test (position > 0 / >= 0 / != -1) dominates the slice"
+				}
+				if !okLen {
+					if why != "" {
+						why += "; "
+					}
+					why += "the sliced string is not the searched one (or the position was advanced by arithmetic) and no test of the position against its length dominates the slice"
+				}
+				c.check(rule, inst, sl.Pos(), okFound && okLen, "found-test present; sliced string is the searched one or the position is checked against its length", "planning can panic with 'slice bounds out of range' on client SQL: "+why)
+			}
+		}
+	}
+	c.floor(rule, "string slices at searched positions in package planner", n, 4)
+}
+
+// ruleC16g: a panic raised by client data inside the ingest path is recovered
+// ((*table).insert, mapPartitionRequest); a mutex that is held at that moment
+// without a deferred release stays locked for good and stalls the pipeline.
+func ruleC16g(c *Ctx, rule string) {
+	c.describe(rule, "lock regions: in the functions of the ingest path whose panics are recovered ((*table).insert and what it calls in package zenodb), no mutex is held across the evaluation of a client-supplied expression (goexpr.Expr.Eval) unless it is released by defer — a recovered panic would otherwise leave the lock held and the next writer (ALTER → applyWhere) and every later insert block forever")
+	root := c.need(rule, "(*z.table).insert")
+	if root == nil {
+		return
+	}
+	// functions of package z statically reachable from table.insert (depth <= 3)
+	set := map[*ssa.Function]bool{root: true}
+	frontier := []*ssa.Function{root}
+	for d := 0; d < 3; d++ {
+		var next []*ssa.Function
+		for _, f := range frontier {
+			for _, h := range withAnon(f) {
+				for _, call := range calls(h) {
+					g := call.Common().StaticCallee()
+					if g != nil && inModule(g) && pkgOf(g) == "z" && !set[g] && len(g.Blocks) > 0 {
+						set[g] = true
+						next = append(next, g)
+					}
+				}
+			}
+		}
+		frontier = next
+	}
+	var fns []*ssa.Function
+	for f := range set {
+		fns = append(fns, withAnon(f)...)
+	}
+	sort.Slice(fns, func(i, j int) bool { return fns[i].Pos() < fns[j].Pos() })
+	nEval, nLocks := 0, 0
+	for _, fn := range fns {
+		// mutexes acquired here without a deferred release
+		keys := map[string]bool{}
+		deferred := map[string]bool{}
+		for _, call := range calls(fn) {
+			cn := calleeName(call)
+			a := call.Common().Args
+			if len(a) == 0 {
+				continue
+			}
+			fa, ok := a[0].(*ssa.FieldAddr)
+			if !ok {
+				continue
+			}
+			f := fieldVar(fa.X.Type(), fa.Field)
+			if f == nil {
+				continue
+			}
+			k := fieldKey(fa.X.Type(), f)
+			switch cn {
+			case "(*sync.RWMutex).Lock", "(*sync.Mutex).Lock", "(*sync.RWMutex).RLock":
+				if _, isDefer := call.(*ssa.Defer); !isDefer {
+					keys[k] = true
+					nLocks++
+				}
+			case "(*sync.RWMutex).Unlock", "(*sync.Mutex).Unlock", "(*sync.RWMutex).RUnlock":
+				if _, isDefer := call.(*ssa.Defer); isDefer {
+					deferred[k] = true
+				}
+			}
+		}
+		for _, call := range calls(fn) {
+			if calleeName(call) == "invoke (github.com/getlantern/goexpr.Expr).Eval" {
+				nEval++
+			}
+		}
+		for k := range keys {
+			if deferred[k] {
+				continue
+			}
+			li := lockRegions(fn, k)
+			bad := ""
+			for _, call := range calls(fn) {
+				if calleeName(call) != "invoke (github.com/getlantern/goexpr.Expr).Eval" {
+					continue
+				}
+				if s := li.state[call.(ssa.Instruction)]; s == lkRead || s == lkWrite || s == lkConflict {
+					bad = c.P.Pos(call.Pos())
+				}
+			}
+			c.touch(fn)
+			c.check(rule, stableName(fn)+": "+k+" is not held across expression evaluation", fn.Pos(), bad == "", "no goexpr Eval inside the region (or the release is deferred)", "mutex "+k+" is held, without a deferred release, across the evaluation of a client-supplied expression (at "+bad+"): a dimension of the wrong type makes Eval panic, the panic is recovered by (*table).insert, the lock is never released and the next ALTER and all later inserts into the table block")
+		}
+	}
+	c.floor(rule, "expression evaluations on the ingest path", nEval, 2)
+	c.floor(rule, "mutex acquisitions on the ingest path", nLocks, 2)
 }
